@@ -658,7 +658,7 @@ Inductive qual :=
 | QFlag (k : str).                         (* /k *)
 Record afeat := mkafeat { akey : str; aloc : lexp; awrap : list nat; aquals : list qual }.
 Record hfield := mkhfield { hk : str; hlines : list str; hsubs : list (str * list str) }.
-Record arec := mkarec { ahdr : list hfield; afts : list afeat; aseq : str; ablank : bool; aorigin : bool }.
+Record arec := mkarec { ahdr : list hfield; afts : list afeat; aseq : str; ablank : bool; aorigin : bool; afeatures : bool }.
 
 Definition pad_right (n : nat) (s : str) : str := s ++ spaces (n - length s).
 Definition pad_left (n : nat) (s : str) : str := spaces (n - length s) ++ s.
@@ -721,7 +721,7 @@ Definition origin_positions (s : str) : list nat :=
 Definition feat_header : str := bs "FEATURES             Location/Qualifiers"%bs.
 Definition origin_line : str := bs "ORIGIN"%bs.
 Definition render_rec (r : arec) : list str :=
-  flat_map render_hfield (ahdr r) ++ [feat_header] ++ flat_map render_feat (afts r)
+  flat_map render_hfield (ahdr r) ++ (if afeatures r then [feat_header] ++ flat_map render_feat (afts r) else [])
   ++ (if aorigin r then [origin_line] ++ render_origin (aseq r) else []) ++ [sl2] ++ (if ablank r then [[]] else []).
 Definition render_gb (rs : list arec) : str :=
   flat_map (fun l => l ++ [nl]) (flat_map render_rec rs).
@@ -794,13 +794,21 @@ Definition field_val (h : hfield) : hv := fold_left sub_val (hsubs h) (HS (main_
 Definition hdr_step (a : list (str * hv)) (h : hfield) : list (str * hv) := aset (lower (hk h)) (field_val h) a.
 Definition view_hdr (hs : list hfield) : list (str * hv) := fold_left hdr_step hs [].
 Definition is_nil {A} (l : list A) : bool := match l with [] => true | _ => false end.
+(* a record without a FEATURES line: the reader stays in the header state, so the ORIGIN line is a header field 'origin' and every
+   residue line a sub-field line of it (name = what stands in its first 12 columns, text = the residue groups); the residues are
+   silently dropped (genbank.py:143-171 is never left) *)
+Definition origin_hdr_val (lines : list str) : hv :=
+  fold_left (fun V l => HA (aset (strip (lower (firstn 12 l))) (HS (value_of l)) [(k_id, V)])) lines (HS []).
+Definition in_table (r : arec) : bool := aorigin r && afeatures r.
 Definition view_rec (excl : list str) (r : arec) : rec :=
   let oid := view_id r in
   mkrec (match oid with Some i => i | None => [] end)
-        (if mem k_seq excl || negb (aorigin r) then [] else upper (aseq r))
-        (* meta.fts is only set when the ORIGIN line is reached (genbank.py:186-188) *)
-        (if mem k_fts excl || negb (aorigin r) then None else Some (map (view_feat excl oid) (afts r)))
-        (adel k_reference (view_hdr (ahdr r))).
+        (if mem k_seq excl || negb (in_table r) then [] else upper (aseq r))
+        (* meta.fts is only set when the ORIGIN line is reached in the feature table (genbank.py:186-188) *)
+        (if mem k_fts excl || negb (in_table r) then None else Some (map (view_feat excl oid) (afts r)))
+        (adel k_reference (if aorigin r && negb (afeatures r)
+                           then aset k_origin (origin_hdr_val (render_origin (aseq r))) (view_hdr (ahdr r))
+                           else view_hdr (ahdr r))).
 Definition view (excl : list str) (rs : list arec) : list rec := map (view_rec excl) rs.
 Definition view_fts (excl : list str) (rs : list arec) : list feat :=
   flat_map (fun r => match rfts r with Some l => l | None => [] end) (view (k_seq :: excl) rs).
@@ -871,7 +879,9 @@ Definition wf_arec (excl : list str) (r : arec) : bool :=
   (* the ORIGIN line numbers fit their 9-column field (fewer than 10^9 residues) *)
   && forallb (fun p => all_digits (dec_of_nat p) && (length (dec_of_nat p) <=? 9)%nat) (origin_positions (aseq r))
   (* a record without ORIGIN: a pending feature at '//' is an AssertionError (C10_read_noorigin), so either no feature or fts excluded *)
-  && (aorigin r || mem k_fts excl || is_nil (afts r)).
+  && (aorigin r || mem k_fts excl || is_nil (afts r))
+  (* a record without FEATURES has no feature lines; its ORIGIN line numbers leave a leading blank (fewer than 10^8 residues) *)
+  && (afeatures r || (is_nil (afts r) && forallb (fun p => (length (dec_of_nat p) <=? 8)%nat) (origin_positions (aseq r)))).
 Definition wf_C10 (excl : list str) (rs : list arec) : bool :=
   nonempty rs && forallb (wf_arec excl) rs
   (* no rendered line contains a newline (implied by the character classes above; kept as a checked condition) *)
@@ -889,7 +899,7 @@ Fixpoint strand_scan (fs : list afeat) : bool :=
 (* the error a record causes: ValueError for a both-strand feature (record with ORIGIN), AssertionError (an assert statement,
    genbank.py:117-118) for a record without ORIGIN whose last feature is still pending at '//' *)
 Definition err_rec (excl : list str) (r : arec) : option str :=
-  if mem k_fts excl || negb (forallb wf_hfield (ahdr r)) then None
+  if mem k_fts excl || negb (forallb wf_hfield (ahdr r)) || negb (afeatures r) then None
   else if aorigin r then (if strand_scan (afts r) then Some ValueError else None)
   else if negb (is_nil (afts r)) && forallb wf_afeat (afts r) then Some AssertionError else None.
 (* the first record that is not well-formed decides *)
@@ -986,8 +996,8 @@ Definition box_hdr : list hfield :=
 Definition box_file (w : list nat) (e : lexp) : list arec :=
   [mkarec box_hdr [mkafeat (d "source") (LRange false (d "1") false (d "70")) [] [QText (d "organism") [d "Some virus"]];
                    mkafeat (d "CDS") e w box_quals]
-          (d "acgtacgtacgtacgtacgtacgtacgtacgtacgtacgtacgtacgtacgtacgtacgtacgtacgtac") false true;
-   mkarec [mkhfield (d "LOCUS") [d "X"] []] [mkafeat (d "gene") e [] []] (d "ACGTnn") true true].
+          (d "acgtacgtacgtacgtacgtacgtacgtacgtacgtacgtacgtacgtacgtacgtacgtacgtacgtac") false true true;
+   mkarec [mkhfield (d "LOCUS") [d "X"] []] [mkafeat (d "gene") e [] []] (d "ACGTnn") true true true].
 Definition box_files : list (list arec) :=
   flat_map (fun w => flat_map (fun f => map (fun e => box_file w (f e)) box_leaves) box_wrappers)
            [[]; [1; 3; 11; 1; 2; 9]%nat; [15; 7]%nat].
